@@ -51,6 +51,8 @@ pub struct ConnMon {
     pub inst_count: BTreeMap<SocketAddr, u32>,
     /// every change of Transmit.destination: (time, new destination)
     pub dest_log: Vec<(u64, SocketAddr)>,
+    /// frames received (all types) at the moment of the local close()
+    pub frames_rx_at_close: Option<u64>,
     /// every transmit: (time, destination, bytes), kept only when `log_transmits` is on
     pub tx_log: Vec<(u64, SocketAddr, u32)>,
     /// C05 credit ledger: what the peer has advertised to this sender (superset)
@@ -602,6 +604,7 @@ impl Mon {
         let mut msgs = vec![];
         if let Some(cm) = self.conns.get_mut(&(ei, ch)) {
             cm.close_pto_ns = pto;
+            cm.frames_rx_at_close = Some(frame_rx_total(&conn.c.stats().frame_rx));
             cm.awaiting_close_tx = p.state == "Closed";
             cm.closer_had_early_keys = p.has_keys[0] || p.has_keys[1] || !p.has_keys[2];
         }
@@ -1036,4 +1039,10 @@ impl Mon {
     }
 
     pub fn end_of_step(&mut self, _now: u64, _eps: &[Ep], _led: &mut Ledger) {}
+}
+
+/// Number of frames a connection has decoded from packets it could decrypt (frames keep being
+/// counted while it is closing, unlike the authenticated-packet counter).
+pub fn frame_rx_total(s: &proto::FrameStats) -> u64 {
+    s.acks + s.ack_frequency + s.crypto + s.datagram + s.immediate_ack + s.max_data + s.max_stream_data + s.max_streams_bidi + s.max_streams_uni + s.new_connection_id + s.new_token + s.path_challenge + s.path_response + s.ping + s.reset_stream + s.retire_connection_id + s.stop_sending + s.stream + s.streams_blocked_bidi + s.streams_blocked_uni
 }
